@@ -4,18 +4,24 @@
 (* how many goroutines run, how many calls each makes and how the calls are   *)
 (* distributed over the actions of LoggerCid (New / Alias / Log, in percent). *)
 (* What the execution must look like is decided by Trace_LoggerCid.           *)
-EXTENDS Naturals, TLC, Json
-CONSTANTS Goroutines, Ops, Shared, MixNames
-VARIABLES n, ops, mix, shared
-vars == <<n, ops, mix, shared>>
+EXTENDS Naturals, FiniteSets, TLC, Json
+CONSTANTS Goroutines, Ops, Shared, MixNames,
+          Closers      \* is the writer handed to Switch also an io.Closer? {TRUE, FALSE}: both for every
+                       \* descriptor; {}: one of the two, alternating over goroutine counts and mixes
+VARIABLES n, ops, mix, shared, closer
+vars == <<n, ops, mix, shared, closer>>
 
 \* percent of calls per action of LoggerCid
 Mix(name) == CASE name = "create"   -> [name |-> name, new |-> 75, alias |-> 25, log |-> 0]
                [] name = "log"      -> [name |-> name, new |-> 4,  alias |-> 4,  log |-> 92]
                [] name = "balanced" -> [name |-> name, new |-> 30, alias |-> 20, log |-> 50]
 
+Pos(x, S) == Cardinality({y \in S : y < x})
+MixPos(m) == CASE m = "create" -> 0 [] m = "log" -> 1 [] m = "balanced" -> 2
+
 GenInit == /\ n \in Goroutines /\ ops \in Ops /\ shared \in Shared
            /\ mix \in {Mix(m) : m \in MixNames}
+           /\ closer \in (IF Closers # {} THEN Closers ELSE {(Pos(n, Goroutines) + MixPos(mix.name)) % 2 = 1})
 GenNext == UNCHANGED vars
-Emit == PrintT(<<"CASE", ToJson([n |-> n, ops |-> ops, mix |-> mix, shared |-> shared])>>)
+Emit == PrintT(<<"CASE", ToJson([n |-> n, ops |-> ops, mix |-> mix, shared |-> shared, closer |-> closer])>>)
 =============================================================================
